@@ -20,7 +20,7 @@ PID = "C09"
 MOD = "bbverif.checks.c09"
 
 SCALARS = ["int", "float", "complex", "np.int64", "np.float64", "np.complex128", "true", "false", "np.bool",
-           "str", "str_space", "str_digit", "str_pname"]
+           "str", "str_space", "str_digit", "str_pname", "str_backslash", "str_backslash2", "str_hash", "str_unicode", "str_brackets"]
 LISTS = ["list_int", "list_float", "list_npint", "list_npfloat", "list_mixed", "list_str", "list_complex", "list_bool", "list_npcomplex", "list_one"]
 ARRAYS = ["arr_int_1x1", "arr_int_2x3", "arr_float_2x2", "arr_float_1x3", "arr_complex_2x2", "arr_complex_1x1", "arr_float_3x1", "arr_int_2x2", "arr_int_1x3", "arr_complex_1x3",
           "arr_float_1x1", "arr_float_1x4"]
@@ -95,6 +95,16 @@ def make_value(kind, vs):
         return "1x"
     if kind == "str_pname":
         return "p1"
+    if kind == "str_backslash":
+        return "\\theta_1 C:\\new\\table"
+    if kind == "str_backslash2":
+        return "a\\\\b\\u12 end\\"
+    if kind == "str_hash":
+        return "#not a comment, {x} | [0]"
+    if kind == "str_unicode":
+        return "\u00e9\u03b1 \u2028x"
+    if kind == "str_brackets":
+        return "(a[1]=2*3)'"
     if kind == "list_int":
         return [vs.num("int"), vs.num("int"), vs.num("int")]
     if kind == "list_float":
